@@ -403,6 +403,23 @@ def proof_obligations(ctx, subdirs=None, whitelist=(), modules=("Props",), make_
                     ctx.broken_proofs.append({"theorem": n, "why": "unlisted axioms: %s" % extra})
                 elif not hits:
                     discharged += 1
+    if ok and ctx.thorough() and not os.environ.get("IBLNPX_NO_COQCHK"):
+        # independent re-check of the compiled theorems and everything they depend on
+        for m in modules:
+            try:
+                rc, out = sh(["timeout", "2400", "coqchk", "-silent", "-o", "-Q", ".", "IBL",
+                              "IBL.%s.%s" % (prop, m)], cwd=COQ, timeout=2500)
+            except subprocess.TimeoutExpired:
+                rc, out = 124, "coqchk timed out"
+            summ = out[out.find("CONTEXT SUMMARY"):] if "CONTEXT SUMMARY" in out else out[-1500:]
+            ax = re.search(r"\* Axioms:(.*?)\n\s*\n\* Constants/Inductives relying on type-in-type:(.*?)\n", summ, re.S)
+            ctx.coverage.setdefault("coqchk", {})[m] = {
+                "rc": rc,
+                "axioms": [a.strip() for a in ax.group(1).split("\n") if a.strip()] if ax else None,
+                "type_in_type": ax.group(2).strip() if ax else None}
+            if rc != 0:
+                ctx.broken_proofs.append({"theorem": "coqchk %s.%s" % (prop, m), "why": out[-1500:]})
+                discharged = 0
     ctx.coverage["obligations"] = obligations
     ctx.coverage["discharged"] = discharged
     ctx.coverage["checker_cmd"] = ("cd /verif/coq && coq_makefile -f _CoqProject -o Makefile && make %s"
